@@ -38,7 +38,33 @@ func init() {
 
 // anyExpr draws from every generator of the harness.
 func anyExpr(g *xgen.G, env *xgen.Env) xref.Expr {
-	switch g.Intn(18) {
+	switch g.Intn(21) {
+	case 18, 19, 20:
+		// a function that keeps its argument queries in a closure, over a path whose steps carry stacked (boolean then
+		// positional) predicates: state that survives in the closure or in a shared clone shows at the second evaluation
+		arg := func() xref.Expr {
+			if g.Chance(0.3) {
+				return xref.Filter{X: xref.Group{X: g.StackedPath(env)}, Preds: []xref.Expr{g.PosPred(3)}}
+			}
+			return g.StackedPath(env)
+		}
+		switch f := g.Pick("string-join", "concat", "count", "sum", "string", "normalize-space", "contains", "starts-with", "string-length", "translate", "number", "boolean", "not", "local-name", "name", "substring", "lower-case", "reverse", "substring-before", "ends-with"); f {
+		case "string-join":
+			return xref.Call{Name: f, Args: []xref.Expr{arg(), xref.Str{V: g.Pick(",", "", "|")}}}
+		case "concat":
+			return xref.Call{Name: f, Args: []xref.Expr{arg(), xref.Str{V: "-"}, arg()}}
+		case "contains", "starts-with", "ends-with", "substring-before":
+			if g.Chance(0.5) {
+				return xref.Call{Name: f, Args: []xref.Expr{arg(), xref.Str{V: g.Pick("1", "a", "x", "")}}}
+			}
+			return xref.Call{Name: f, Args: []xref.Expr{xref.Str{V: g.Pick("10", "abc", "x1")}, arg()}}
+		case "translate":
+			return xref.Call{Name: f, Args: []xref.Expr{arg(), xref.Str{V: "abc1"}, xref.Str{V: "ABC_"}}}
+		case "substring":
+			return xref.Call{Name: f, Args: []xref.Expr{arg(), xref.Num{Lex: g.Pick("1", "2")}}}
+		default:
+			return xref.Call{Name: f, Args: []xref.Expr{arg()}}
+		}
 	case 11:
 		return g.StackedPath(env)
 	case 12, 16, 17:
